@@ -9,6 +9,8 @@ def knownIdsMaxlen : Nat := 200
 def loopCfg : Sdc.UdpSendLoop.Cfg := ⟨10000, 100000⟩
 /-- the compared fields of `_EnqueuedMessage`, in dataclass order -/
 def queueKey : List String := ["send_time", "repeat"]
+/-- what `add_outbound_message` does, in program order (traced on the real method) -/
+def addOutboundOrder : List String := ["register", "put", "put", "put", "put", "put"]
 /-- every `_send_*` of WSDiscovery: (name, destination is the multicast address, parameter set handed over) -/
 def senders : List (String × Bool × Params) := [("_send_bye", true, ⟨500, 4, 50, 250, 500⟩), ("_send_hello", true, ⟨500, 4, 50, 250, 500⟩), ("_send_probe", true, ⟨500, 4, 50, 250, 500⟩), ("_send_probe_match", false, ⟨500, 2, 50, 250, 500⟩), ("_send_resolve", true, ⟨500, 4, 50, 250, 500⟩), ("_send_resolve_match", false, ⟨500, 2, 50, 250, 500⟩)]
 end Sdc.Generated
